@@ -507,6 +507,8 @@ func use(b []byte) int {
 	return r.x
 }`, func(fr *core.Result, fprog *core.Program, fpk *packages.Package) { checkNilResults(fr, fprog, fpk) })
 	checkLazyBitAgreement(r, prog, prog.Pkg(""), lp, r.Tier == "thorough")
+	ns2 := checkLazySorted(r, prog, lp)
+	r.Floor("binary-searched tag tables", ns2, 2)
 	nn := checkNestedWire(r, prog, lp)
 	r.Floor("nested decode sites", nn, 2)
 	nl := checkSkipLemmaSites(r, prog, lp, "(*DecodeResult).decode")
